@@ -726,10 +726,12 @@ class Block(object):
         sync_prop = 'wcs'
         for net in sync_mems:
             wires_to_check = list(net.args)
+            checked = set()  # a combinational loop in the index logic must not hang the walk
             while len(wires_to_check):
                 wire = wires_to_check.pop()
-                if isinstance(wire, (Input, Const)):
+                if isinstance(wire, (Input, Const)) or wire in checked:
                     continue
+                checked.add(wire)
                 src_net = wire_src_dict[wire]
                 if src_net.op == sync_src:
                     continue
